@@ -1,6 +1,7 @@
 package core
 
 import (
+	"sort"
 	"sync"
 	"time"
 
@@ -251,7 +252,9 @@ func (d *Diamond) mergeSplits(filePackedC chan<- filePacked, errorC chan<- error
 	go func(input <-chan bundleEntriesRes, output chan<- filePacked, interrupt <-chan struct{}, wg *sync.WaitGroup) {
 		defer wg.Done()
 
-		mergeIndex := iradix.New()
+		// Collect every version of every path first: the outcome must not depend on the order in which the
+		// file lists of the splits arrive.
+		versions := iradix.New()
 		for res := range input {
 			splitID := res.id
 			d.l.Debug("merge received batch", zap.String("from split", splitID), zap.Int("num_entries", len(res.bundleEntries.BundleEntries)))
@@ -264,73 +267,58 @@ func (d *Diamond) mergeSplits(filePackedC chan<- filePacked, errorC chan<- error
 				merged++
 				d.l.Debug("merge received file entry", zap.String("from split", splitID), zap.String("entry", file.NameWithPath))
 				key := []byte(file.NameWithPath)
-				obj, found := mergeIndex.Get(key)
-				if !found {
-					mergeIndex, _, _ = mergeIndex.Insert(key, mergeEntry{BundleEntry: file, ID: splitID})
-					continue
+				var all []mergeEntry
+				if obj, found := versions.Get(key); found {
+					all = obj.([]mergeEntry)
 				}
+				versions, _, _ = versions.Insert(key, append(all, mergeEntry{BundleEntry: file, ID: splitID}))
+			}
+		}
 
-				existing := obj.(mergeEntry)
-				if file.Hash == existing.Hash {
-					continue
-				}
+		// Resolve: for each path, the version with the latest upload time wins. In conflict or checkpoint mode, every
+		// other distinct content is kept aside, under the split that uploaded it. Identical contents are not conflicts.
+		mergeIndex := iradix.New()
+		resolver := versions.Root().Iterator()
+		for key, obj, ok := resolver.Next(); ok; key, obj, ok = resolver.Next() {
+			all := obj.([]mergeEntry)
+			sort.SliceStable(all, func(i, j int) bool { return all[i].ID < all[j].ID })
 
-				if file.Timestamp.IsZero() {
-					d.l.Error("dev error: expecting files processed by diamond commit to have a timestamp", zap.Any("file", file))
+			winner := all[0]
+			for _, version := range all[1:] {
+				if version.Hash != winner.Hash && (version.Timestamp.IsZero() || winner.Timestamp.IsZero()) {
+					d.l.Error("dev error: expecting files processed by diamond commit to have a timestamp", zap.Any("file", version.BundleEntry))
 					panic("dev error: files should have a timing") // internal safeguard
 				}
-				if file.Timestamp.After(existing.Timestamp) {
-					// got a more recent file
-
-					switch {
-					case mode == model.IgnoreConflicts || splitID == existing.ID:
-						// ignore conflict: replace existing entry with newer version
-						// or: self-inflicted conflict, which is ignored
-						mergeIndex, _, _ = mergeIndex.Insert(key, mergeEntry{BundleEntry: file, ID: splitID})
-
-					case mode == model.ForbidConflicts:
-						conflicts++
-						errorC <- errorHit{
-							error: status.ErrCommitGivenUp.
-								WrapWithLog(d.l, status.ErrForbiddenConflict, zap.String("entry", file.NameWithPath)),
-						}
-						return
-
-					default:
-						// report conflict/checkpoint: add conflicting file to the bundle in some special location
-						// (e.g. .conflicts/{splitID}/{path}) and update the key with the newer file
-						existing.NameWithPath = d.deconflicter(splitID, existing.NameWithPath)
-						d.l.Debug("deconflicting", zap.String("from", file.NameWithPath), zap.String("to", existing.NameWithPath))
-						mergeIndex, _, _ = mergeIndex.Insert([]byte(existing.NameWithPath), existing)
-						// overwrite with new version
-						mergeIndex, _, _ = mergeIndex.Insert(key, mergeEntry{BundleEntry: file, ID: splitID})
-						conflicts++
-					}
-				} else {
-					// got an older file
-
-					if splitID == existing.ID {
-						// ignored self-inflicted conflict
-						continue
-					}
-
-					switch mode {
-					case model.EnableConflicts, model.EnableCheckpoints:
-						newEntry := file
-						newEntry.NameWithPath = d.deconflicter(splitID, existing.NameWithPath)
-						d.l.Debug("deconflicting", zap.String("from", file.NameWithPath), zap.String("to", newEntry.NameWithPath))
-						mergeIndex, _, _ = mergeIndex.Insert([]byte(d.deconflicter(splitID, file.NameWithPath)), mergeEntry{BundleEntry: newEntry, ID: splitID})
-						conflicts++
-
-					case model.ForbidConflicts:
-						conflicts++
-						errorC <- errorHit{
-							error: status.ErrCommitGivenUp.
-								WrapWithLog(d.l, status.ErrForbiddenConflict, zap.String("entry", file.NameWithPath)),
-						}
-						return
-					}
+				if version.Timestamp.After(winner.Timestamp) {
+					winner = version
 				}
+			}
+			mergeIndex, _, _ = mergeIndex.Insert(key, winner)
+
+			if mode == model.IgnoreConflicts {
+				continue
+			}
+
+			settled := map[string]struct{}{winner.Hash: {}}
+			for _, version := range all {
+				if _, done := settled[version.Hash]; done || version.ID == winner.ID {
+					continue
+				}
+				settled[version.Hash] = struct{}{}
+				conflicts++
+
+				if mode == model.ForbidConflicts {
+					errorC <- errorHit{
+						error: status.ErrCommitGivenUp.
+							WrapWithLog(d.l, status.ErrForbiddenConflict, zap.String("entry", version.NameWithPath)),
+					}
+					return
+				}
+
+				loser := version
+				loser.NameWithPath = d.deconflicter(version.ID, version.NameWithPath)
+				d.l.Debug("deconflicting", zap.String("from", version.NameWithPath), zap.String("to", loser.NameWithPath))
+				mergeIndex, _, _ = mergeIndex.Insert([]byte(loser.NameWithPath), loser)
 			}
 		}
 
